@@ -633,6 +633,12 @@ func (f *frame) loopModSet(h *ssa.BasicBlock, be map[[2]int]bool) (map[string]*m
 			return
 		case *ssa.Alloc:
 			written[a] = true
+			if depth > 0 || body[a.Block()] {
+				// a cell allocated inside the loop (or inside an inlined callee) is
+				// fresh in every iteration: writing it changes nothing that exists
+				// at the loop header
+				return
+			}
 		}
 		cellField(v, field, depth)
 	}
@@ -650,7 +656,6 @@ func (f *frame) loopModSet(h *ssa.BasicBlock, be map[[2]int]bool) (map[string]*m
 					if blocks != nil {
 						written[v] = true
 					}
-					root(v, -1, 1)
 				case *ssa.MakeSlice:
 					touch(v.Type().Underlying().(*types.Slice).Elem(), true)
 				case *ssa.MapUpdate:
